@@ -351,7 +351,7 @@ FAMILIES = {
             }},
         },
         'instantiable': ['Bx', 'Both', 'LowOnly', 'HighOnly', 'Lims', 'LowLims', 'Mot', 'Stg'],
-        'quick_instantiable': ['Both', 'LowOnly', 'HighOnly', 'Lims', 'Mot', 'Stg'],
+        'quick_instantiable': ['Both', 'LowOnly', 'HighOnly', 'Stg'],
         'configs': [
             {},
             {'x_min': {'value': 2}},
@@ -362,7 +362,7 @@ FAMILIES = {
         ],
         'configs_for': {'Bx': [0], 'Both': [0, 1, 2, 5], 'LowOnly': [0, 1], 'HighOnly': [0, 2], 'Lims': [0, 3], 'LowLims': [0, 1, 3],
                         'Mot': [0, 4], 'Stg': [0, 4]},
-        'quick_configs': [0, 1, 2, 3, 4],
+        'quick_configs': [0, 1, 2, 4],
         'mutations': {
             'setmin': {'needs': ['x_min', 'x'], 'op': ['assign', 'x_min', 3]},
             'setmax': {'needs': ['x_max', 'x'], 'op': ['assign', 'x_max', 6]},
